@@ -79,4 +79,8 @@ def authEntryWorld (env : Env) (depth : Nat) (ro : Bool) (authorized target : Ad
 def LogsExtend (w w' : World) : Prop :=
   w'.thash = w.thash ∧ w'.txIndex = w.txIndex ∧ ∃ new, w'.logs = w.logs ++ new ∧ ∀ l ∈ new, l.txh = w.thash
 
+/-- the world the first frame of a transaction starts from (vmexecutor.go:80-82) -/
+def txStartWorld (cfg : Cfg) (i : Nat) (w : World) (tx : Tx) : World :=
+  if cfg.p013 then prepare w tx.hash i else w
+
 end Rangers.Model.Evm12
